@@ -27,10 +27,12 @@ def run_endpoints(rep, kf, tier, seed, prop):
                                            "; ".join(f"{e.header} {e.detail}" for e in pkg.errors)[:400]))
             continue
         contracts = []
-        if prop == "C03":
+        if prop in ("C03", "C10x"):
             for opid, (method, path, params, content) in ops.items():
+                if prop == "C10x" and content is not None:
+                    continue
                 contracts.append((opid, ef.get_kwargs_contract(pkg, doc, opid, method, path, params, content, version)))
-            for opid in ("op_mixed", "op_path", "body_json", "body_multi", "op_query_enum"):
+            for opid in ("op_mixed", "op_path", "body_json", "body_multi", "op_query_enum") if prop == "C03" else ():
                 method, path, params, content = ops[opid]
                 for entry in ("sync_detailed", "asyncio_detailed"):
                     contracts.append((opid, ef.entry_contract(pkg, doc, opid, method, path, params, content, version, entry)))
@@ -41,7 +43,7 @@ def run_endpoints(rep, kf, tier, seed, prop):
         for opid, c in contracts:
             def task(c=c, opid=opid, version=version):
                 r = core.Report(prop, tier, seed)
-                engine_b.discharge(r, kf, [c], prop, tier, seed)
+                engine_b.discharge(r, kf, [c], "C10" if prop == "C10x" else prop, tier, seed)
                 for o in r.obligations:
                     o.id = o.id.replace(".B.", ".F.")
                     o.backend = "z3 (fragment rendered by the real templates)"
